@@ -324,3 +324,142 @@ Proof.
               (fun s => proj1 (proj1 (ref_small_steps s)))))).
 Qed.
 Print Assumptions C05_ref_tail_specs.
+
+
+(* ================================================================== round 5: the link relation, certified *)
+(* The link relation the specification is evaluated on is no longer the implementation's own gcirc: C05/Sky.v computes it
+   from the coordinates the caller passed (exact rationals, degrees) by interval arithmetic (library Interval, 150 bits).
+     cossep p q  = sin d1 sin d2 + cos d1 cos d2 cos (a1 - a2)      cosine of the angular separation (reals, radians via PI/180)
+     LhiR, LloR  = rad(L) (1 +- rel) +- abs                        a band around the linking List.length (rel 1e-9, abs 1e-13 rad
+                                                                    in the harness; inside it the implementation's bit is kept) *)
+From Coq Require Import Reals QArith.
+From PV Require Import C05.Sky C05.SkyProofs C05.Coverage.
+Close Scope string_scope. Close Scope Q_scope. Close Scope R_scope. Close Scope Z_scope. Open Scope nat_scope.
+
+(* every `true' of the certified link relation is a separation of at most Lhi, every `false' (i <> j) one above Llo;
+   the relation is symmetric and reflexive by construction; the bit-mask rows handed to the oracle read back as it *)
+Theorem C05_sky_link_certified : forall pts L rel abs impl,
+  (sky_ok pts L rel abs impl = true ->
+   forall i j p q, nth_error pts i = Some p -> nth_error pts j = Some q ->
+     (sky_link pts L rel abs impl i j = true -> (cos (LhiR L rel abs) <= cossep p q)%R) /\
+     (i <> j -> sky_link pts L rel abs impl i j = false -> (cossep p q < cos (LloR L rel abs))%R)) /\
+  (forall i j, sky_link pts L rel abs impl i j = sky_link pts L rel abs impl j i) /\
+  (forall i, sky_link pts L rel abs impl i i = true) /\
+  (forall i j, i < List.length pts -> j < List.length pts ->
+     link_of (sky_rows pts L rel abs impl) i j = sky_link pts L rel abs impl i j).
+Proof.
+  exact (fun pts L rel abs impl => conj (sky_link_certified pts L rel abs impl)
+          (conj (sky_link_sym pts L rel abs impl) (conj (sky_link_refl pts L rel abs impl) (sky_rows_link pts L rel abs impl)))).
+Qed.
+Print Assumptions C05_sky_link_certified.
+
+(* reading of the two inequalities: cossep is a cosine, and for 0 <= t <= PI  "separation <= t"  is  cos t <= cossep *)
+Theorem C05_cossep_is_separation : forall p q t,
+  (-1 <= cossep p q <= 1)%R /\ ((0 <= t <= PI)%R -> (acos (cossep p q) <= t <-> cos t <= cossep p q)%R) /\
+  cossep p q = cossep q p /\ cossep p p = 1%R.
+Proof.
+  exact (fun p q t => conj (cossep_bound p q) (conj (fun Ht => acos_le_iff (cossep p q) t (cossep_bound p q) Ht)
+          (conj (cossep_sym p q) (cossep_refl p)))).
+Qed.
+Print Assumptions C05_cossep_is_separation.
+
+(* the end-to-end theorem for the certified link relation: symmetry and reflexivity are no longer hypotheses *)
+Theorem C05_spheregroup_sky_spec : forall pts L rel abs impl cells,
+  (forall c a, In c cells -> In a c -> a < List.length pts) ->
+  pair_coverage (List.length pts) (sky_link pts L rel abs impl) cells ->
+  spheregroup_full (List.length pts) (sky_link pts L rel abs impl) cells = spec_output (List.length pts) (sky_link pts L rel abs impl).
+Proof. exact spheregroup_sky_spec. Qed.
+Print Assumptions C05_spheregroup_sky_spec.
+
+Example C05_example_sky :     (* RA 359.9, 0.05, 10, 360, -0.1 degrees; linking length 0.2: four positions around the seam link *)
+  let pts := [((3599, 10), (0, 1)); ((1, 20), (0, 1)); ((10, 1), (0, 1)); ((360, 1), (1, 10)); ((-1, 10), (1, 10))]%Z in
+  let impl := fun _ _ : nat => false in
+  sky_ok pts (1, 5)%Z (1, 1000000000)%Z (1, 10000000000000)%Z impl = true /\
+  sky_rows pts (1, 5)%Z (1, 1000000000)%Z (1, 10000000000000)%Z impl = [27; 27; 4; 27; 27]%Z.
+Proof. vm_compute. split; reflexivity. Qed.
+
+(* ================================================================== round 5: what is behind pair_coverage *)
+(* pair_coverage follows from two facts about chunks.assign (lists built in index order, one list per cell, the non-empty
+   ones visited): every point is entered in the cell that contains it, and for a linked pair the cell containing one
+   point is among the cells the other point is entered in (either way round) *)
+Theorem C05_pair_coverage_reduction : forall (cellid : Type) (ceqb : cellid -> cellid -> bool),
+  (forall a b, ceqb a b = true <-> a = b) ->
+  forall n link cells_of home ids,
+  home_assigned cellid n cells_of home ids -> margin_coverage cellid n link cells_of home ->
+  pair_coverage n link (assign_lists cellid ceqb n cells_of ids) /\
+  (forall c a, In c (assign_lists cellid ceqb n cells_of ids) -> In a c -> a < n) /\
+  ((forall a b, a < n -> b < n -> link a b = link b a) -> (forall a, a < n -> link a a = true) ->
+   spheregroup_full n link (assign_lists cellid ceqb n cells_of ids) = spec_output n link).
+Proof.
+  exact (fun cellid ceqb Hc n link cells_of home ids Hh Hm =>
+    conj (pair_coverage_of_margin cellid ceqb Hc n link cells_of home ids Hh Hm)
+      (conj (assign_lists_valid cellid ceqb Hc n link cells_of home ids)
+            (fun Hs Hr => spheregroup_margin_spec cellid ceqb Hc n link cells_of home ids Hs Hr Hh Hm))).
+Qed.
+Print Assumptions C05_pair_coverage_reduction.
+
+(* the two facts in exact arithmetic away from the 0/360 seam, from C04's model of getbounds / fill_cells: if the exact
+   walks succeed for every point, every point lies in a cell of the grid, and for every linked pair the declination and
+   right-ascension differences are below marginSize and raMargin of one of the two points (what C04_dec_margin_covers and
+   C04_ra_margin_covers give over the reals), then margin_coverage and home_assigned hold *)
+Theorem C05_margin_coverage_exact_nowrap : forall n link decB raB ra dec m mg b hs hr,
+  C04.Bounds.mono decB (List.length decB - 1) ->
+  (forall s, s < List.length decB - 1 -> C04.Bounds.mono (nth s raB []) (List.length (nth s raB []) - 1)) ->
+  (forall i, i < n -> C04.Model.getbounds_model decB raB (ra i) (dec i) m (mg i) = Some (b i)) ->
+  (forall i, i < n -> in_home decB raB ra dec hs hr i) ->
+  (forall i j, i < n -> j < n -> link i j = true -> within_margins ra dec m mg i j \/ within_margins ra dec m mg j i) ->
+  margin_coverage C04.Model.cell n link (cells_of_exact raB b) (home_exact hs hr) /\
+  (forall ids, (forall i, i < n -> In (home_exact hs hr i) ids) ->
+     (forall i, i < n -> (0 < m)%Q /\ (0 < mg i)%Q) ->
+     home_assigned C04.Model.cell n (cells_of_exact raB b) (home_exact hs hr) ids).
+Proof.
+  exact (fun n link decB raB ra dec m mg b hs hr H1 H2 H3 H4 H5 =>
+    conj (margin_coverage_exact_nowrap n link decB raB ra dec m mg b hs hr H1 H2 H3 H4 H5)
+         (home_assigned_exact_nowrap n decB raB ra dec m mg b hs hr H1 H2 H3 H4)).
+Qed.
+Print Assumptions C05_margin_coverage_exact_nowrap.
+
+Example C05_example_coverage :     (* three points in a row, two cells: the lists assign builds, and the end-to-end equation *)
+  let link := fun i j => Nat.eqb i j || (Nat.eqb i 0 && Nat.eqb j 1) || (Nat.eqb i 1 && Nat.eqb j 0)
+                         || (Nat.eqb i 1 && Nat.eqb j 2) || (Nat.eqb i 2 && Nat.eqb j 1) in
+  let cells_of := fun i => match i with 0 => [0] | 1 => [0; 1] | _ => [1] end in
+  assign_lists nat Nat.eqb 3 cells_of [0; 1; 2] = [[0; 1]; [1; 2]] /\
+  spheregroup_full 3 link (assign_lists nat Nat.eqb 3 cells_of [0; 1; 2]) = spec_output 3 link.
+Proof. vm_compute. split; reflexivity. Qed.
+
+Example C05_example_exact_cells :  (* C04's getbounds model on a 3 x 3 grid: a point near a corner is entered in four cells *)
+  option_map (C04.Model.fill_cells (C04.Bounds.nRa_of_bounds [[0;2;4;6];[0;2;4;6];[0;2;4;6]]%Q))
+    (C04.Model.getbounds_model [-3; -1; 1; 3]%Q [[0;2;4;6];[0;2;4;6];[0;2;4;6]]%Q (19#10) (9#10) (1#2) (1#2))
+  = Some [(1, 0); (1, 1); (2, 0); (2, 1)]%Z.
+Proof. vm_compute. reflexivity. Qed.
+
+(* ================================================================== round 5: the route to the separation routine *)
+(* groups.sphereradec, chunks.chunkfriendsoffriends and the head of spheregroup() (single-point guard, chunk-size rule, the
+   chunks / assign / friendsoffriends calls and their arguments), regenerated from the source on every run as normalised
+   source text, are the reference text of C05/GenRef.v: the separation is gcirc(ra1, dec1, ra2, dec2, units=0) on
+   deg2rad(vstack((ra, dec))), compared with deg2rad(linkSep); the margin handed to chunks.assign is the linking length *)
+Open Scope string_scope.
+Theorem C05_route_is_reference :
+  gen_route_sphereradec_args = ref_route_sphereradec_args /\ gen_route_sphereradec = ref_route_sphereradec /\
+  gen_route_chunkfof_args = ref_route_chunkfof_args /\ gen_route_chunkfof = ref_route_chunkfof /\
+  gen_route_spheregroup_args = ref_route_spheregroup_args /\ gen_route_spheregroup_defaults = ref_route_spheregroup_defaults /\
+  gen_route_spheregroup_head = ref_route_spheregroup_head.
+Proof.
+  exact (conj eq_refl (conj eq_refl (conj eq_refl (conj eq_refl (conj eq_refl (conj eq_refl eq_refl)))))).
+Qed.
+Print Assumptions C05_route_is_reference.
+Close Scope string_scope.
+
+(* the real-number reading of the routine sphereradec calls -- goddard.astro.gcirc, extracted on every run into
+   Generated/Groups.v (module GcircSrc; extractor translate/c18.py gen_gcirc) -- with units = 0, applied to the radians
+   of two positions, is the arc cosine of cossep: `gcirc(...) <= t`  is  `cos t <= cossep`  for 0 <= t <= PI, which is the
+   comparison the certified link relation decides *)
+From PV Require Import C05.SkyRoute.
+Theorem C05_link_routine_is_separation : forall p q t,
+  GcircSrc.gcirc_gen 0 (radR (ratR (fst p))) (radR (ratR (snd p))) (radR (ratR (fst q))) (radR (ratR (snd q)))
+    = acos (cossep p q) /\
+  ((0 <= t <= PI)%R ->
+   (GcircSrc.gcirc_gen 0 (radR (ratR (fst p))) (radR (ratR (snd p))) (radR (ratR (fst q))) (radR (ratR (snd q))) <= t
+    <-> cos t <= cossep p q)%R).
+Proof. exact link_routine_is_separation. Qed.
+Print Assumptions C05_link_routine_is_separation.
